@@ -27,7 +27,7 @@
     unidx <key>                              -> ok        (delete(ch.BlockIndex, key))
     last <node idx>                          -> ok        (ch.SetLast)
     cb <rawLen> <ver> <hash32> <hashKey> <parentKey> <bits> <time> <now> <testnet> <testnet4> <maxbits> <maxvalue>
-       <bip34> <bip65> <bip66> <csv> <segwit> <taproot> <preParsed> <buildOk> <trusted> <merkleroot> <tx>*
+       <bip34> <bip65> <bip66> <csv> <segwit> <taproot> <preParsed> <buildOk> <buildAssigned> <trusted> <merkleroot> <tx>*
                                              -> <dos> <maybelater> <code> <bl.Height> <bl.MedianPastTime> <bl.VerifyFlags> <len(bl.Txs)|nil>
                                                 <#nodes> <len(BlockIndex)> <last>      | panic
        (Chain.CheckBlock with its effects: `BlockCheck.checkBlockM` on the chain state held here)
@@ -199,7 +199,7 @@ def step (s : St) (toks : List String) : St × String :=
     | some i => if i < s.nodes.size then ({ s with last := i }, "ok") else bad
     | none => bad
   | "cb" :: rawLen :: ver :: hash :: hkey :: pkey :: bits :: time :: now :: tn :: tn4 :: mb :: mv :: b34 :: b65 :: b66 :: csv :: sw :: tap ::
-      pp :: bo :: tr :: root :: txs => reply do
+      pp :: bo :: ba :: tr :: root :: txs => reply do
       let hash ← Hex.decode hash
       if hash.length ≠ 32 then none
       let p : Params := { maxPowBits := ← mb.toNat?, maxPowValue := ← mv.toInt?, testnet := ← b01 tn, testnet4 := ← b01 tn4 }
@@ -208,7 +208,7 @@ def step (s : St) (toks : List String) : St × String :=
       let pp ← b01 pp
       let bl : BlockObj := { rawLen := ← rawLen.toNat?, ver := ← ver.toNat?, hash := leVal hash, hashKey := ← hkey.toNat?,
                              parentKey := ← pkey.toNat?, bits := ← bits.toNat?, time := ← time.toNat?, merkleRoot := ← Hex.decode root,
-                             trusted := ← b01 tr, build := txs, buildOk := ← b01 bo, height := 0, mtp := 0,
+                             trusted := ← b01 tr, build := if (← b01 ba) then some txs else none, buildOk := ← b01 bo, height := 0, mtp := 0,
                              txs := if pp then some txs else none, verifyFlags := 0 }
       match checkBlockM p cons sha256d (← now.toInt?) s.cs bl with
       | none => pure "panic"
